@@ -296,6 +296,45 @@ func c16Seeds(env *scratch.Env) []c16Seed {
 	return seeds
 }
 
+// c16Dag: n named types, each mentioning the previous one twice, and a function over the last.
+func c16Dag(kind string, n int) string {
+	var b strings.Builder
+	b.WriteString("package main\n\n")
+	switch kind {
+	case "record":
+		b.WriteString("type R0 = {A0: int; B0: int}\n\n")
+		for i := 1; i <= n; i++ {
+			fmt.Fprintf(&b, "type R%d = {A%d: R%d; B%d: R%d}\n\n", i, i, i-1, i, i-1)
+		}
+		fmt.Fprintf(&b, "let f (r:R%d) =\n  r.A%d\n", n, n)
+	case "union":
+		b.WriteString("type U0 =\n| A0 of int\n| B0\n\n")
+		for i := 1; i <= n; i++ {
+			fmt.Fprintf(&b, "type U%d =\n| A%d of U%d\n| B%d of U%d\n\n", i, i, i-1, i, i-1)
+		}
+		fmt.Fprintf(&b, "let f (u:U%d) =\n  match u with\n  | A%d _ -> 1\n  | B%d _ -> 2\n", n, n, n)
+	case "mixed":
+		b.WriteString("type R0 = {A0: int; B0: int}\n\ntype U0 =\n| P0 of R0*R0\n| Q0\n\n")
+		for i := 1; i <= n; i++ {
+			fmt.Fprintf(&b, "type R%d = {A%d: []U%d; B%d: U%d}\n\ntype U%d =\n| P%d of R%d*R%d\n| Q%d\n\n", i, i, i-1, i, i-1, i, i, i, i, i)
+		}
+		fmt.Fprintf(&b, "let f (u:U%d) =\n  match u with\n  | P%d _ -> 1\n  | Q%d -> 2\n", n, n, n)
+	case "generic-record":
+		b.WriteString("type G0<T> = {A0: T; B0: T}\n\n")
+		for i := 1; i <= n; i++ {
+			fmt.Fprintf(&b, "type G%d<T> = {A%d: G%d<T>; B%d: G%d<T>}\n\n", i, i, i-1, i, i-1)
+		}
+		fmt.Fprintf(&b, "let f (g:G%d<int>) =\n  g.A%d\n", n, n)
+	case "generic-union":
+		b.WriteString("type V0<T> =\n| A0 of T\n| B0\n\n")
+		for i := 1; i <= n; i++ {
+			fmt.Fprintf(&b, "type V%d<T> =\n| A%d of V%d<T>\n| B%d of V%d<T>\n\n", i, i, i-1, i, i-1)
+		}
+		fmt.Fprintf(&b, "let f (v:V%d<int>) =\n  match v with\n  | A%d _ -> 1\n  | B%d _ -> 2\n", n, n, n)
+	}
+	return b.String()
+}
+
 // self-referential / ill-typed definitions (each a complete file)
 var c16IllTyped = []struct{ name, src string }{
 	{"self-apply", "package main\n\nlet f x =\n  x x\n"},
@@ -474,6 +513,17 @@ func c16Workload(env *scratch.Env, tier string, rng *core.Rand) []*c16Exec {
 	// --- ill-typed / self-referential definitions
 	for _, it := range c16IllTyped {
 		mk("ill-typed", it.name, it.src, func(e *c16Exec) { e.heavy = true; e.id = "ill-typed:" + it.name })
+	}
+	// --- small inputs with shared substructure: chains of named types each mentioning the previous
+	// one twice (a few hundred bytes to 3 KB; the work must not double with every level)
+	for _, kind := range []string{"record", "union", "mixed", "generic-record", "generic-union"} {
+		for _, n := range []int{12, 40} {
+			kind, n := kind, n
+			mk("ill-typed", fmt.Sprintf("%s-dag@%d", kind, n), c16Dag(kind, n), func(e *c16Exec) {
+				e.heavy = true
+				e.id = fmt.Sprintf("shared-substructure:%s-dag@%d", kind, n)
+			})
+		}
 	}
 	// --- argument-list faults
 	good := "package main\n\nlet f (a:int) =\n  a + 1\n"
@@ -692,7 +742,7 @@ func runC16(r *core.Run, tier string) {
 		return
 	}
 	const cpuBudget = 10
-	r.Rule("a case is one execution of the rebuilt fc binary in a clean directory under RLIMIT_CPU=10 s (normal cost ~10 ms): mutants of ~35 seed programs (truncation at every byte offset, deletion/duplication/swap/replacement of every token, indentation damage per line, dangling comment/string/bracket/keyword tails), random byte strings, a corpus of ill-typed and self-referential definitions, argument-list faults, strace-injected errors on each openat/write/close of the output path, an output path that is a link to /dev/full, stale gen files present beforehand (longer / shorter / sharing the first line; the complete output cut at 0, 1, every multiple of 4096, its last block boundary and one byte before its end; the output itself; the output plus a stale tail), and size-scaled inputs (one construct nested or repeated 10^2..10^6 times: brackets, slice / function / tuple types, operator chains, statements, definitions, cases, fields, literals, comments; own CPU budget of 300 s, exceeding it is inconclusive); judged by: terminates within the CPU budget, no Go runtime fatal error or signal, exit 0 => every requested gen file present (and byte-equal to the fault-free output in fault runs), exit != 0 => diagnostic printed and nothing written for the offending file; non-trivial = the input differs from every seed (all mutants) ; distinct by class + content hash")
+	r.Rule("a case is one execution of the rebuilt fc binary in a clean directory under RLIMIT_CPU=10 s (normal cost ~10 ms): mutants of ~35 seed programs (truncation at every byte offset, deletion/duplication/swap/replacement of every token, indentation damage per line, dangling comment/string/bracket/keyword tails), random byte strings, a corpus of ill-typed and self-referential definitions, chains of 12 and 40 named types each mentioning the previous one twice (records, unions, mixed, generic), argument-list faults, strace-injected errors on each openat/write/close of the output path, an output path that is a link to /dev/full, stale gen files present beforehand (longer / shorter / sharing the first line; the complete output cut at 0, 1, every multiple of 4096, its last block boundary and one byte before its end; the output itself; the output plus a stale tail), and size-scaled inputs (one construct nested or repeated 10^2..10^6 times: brackets, slice / function / tuple types, operator chains, statements, definitions, cases, fields, literals, comments; own CPU budget of 300 s, exceeding it is inconclusive); judged by: terminates within the CPU budget, no Go runtime fatal error or signal, exit 0 => every requested gen file present (and byte-equal to the fault-free output in fault runs), exit != 0 => diagnostic printed and nothing written for the offending file; non-trivial = the input differs from every seed (all mutants) ; distinct by class + content hash")
 	r.Assume("termination is decided as CPU time <= 10 s on inputs <= 64 KiB (three orders of magnitude above normal cost); the wall-clock watchdog only yields 'inconclusive'", "after an injected failure of the output write itself a partial gen file may remain; exit status and diagnostic are still required", "strace -P restricts injection to syscalls on the output path")
 	rng := core.NewRand(r.SeedV, "c16")
 	work := c16Workload(env, tier, rng)
